@@ -99,6 +99,8 @@ def main():
     if os.path.exists(old_path):
         # keep what earlier versions of the checks did with this change (misses are why checks were extended)
         old = json.load(open(old_path))
+        if 'round' in old:
+            meta['round'] = old['round']
         hist = old.get('history', [])
         hist = [hist] if isinstance(hist, str) else hist
         if old.get('checks'):
